@@ -6,8 +6,8 @@
                                          CachedDummy.get (179-191), CacheProvider.get (243-268: `enabled` selects the class)
     rogw/tranp/implements/syntax/lark/parser.py   __load_parser (49-71: identity = grammar path, mtime, start, algorithm),
                                          __load_entry (73-103: identity = grammar mtime + source mtime), EntryStored/LarkStored
-    rogw/tranp/module/module.py          Module.depends_on / Module.identity (66-97: md5 of [identity(direct import)…, hash(own)],
-                                         cached; file hashes of the imports while the module's own imports are still loading)
+    rogw/tranp/module/module.py          Module.depends_on / Module.identity / __collect_hashes (66-122: md5 over the (file, hash)
+                                         pairs of the import closure, collected with a visited dict, sorted by file path; memoised)
     rogw/tranp/semantics/reflection/persistent.py  SymbolDBPersistor (stored/store/restore, _can_store, _can_restore, _store,
                                          _restore, _find_oldest)
     rogw/tranp/semantics/processors/restore_symbols.py / store_symbols.py, rogw/tranp/providers/module.py ModuleLoader.preprocess
@@ -50,20 +50,30 @@ def Dir.paths (d : Dir) : List Str := d.map (·.1)
 structure Sem where
   /-- `md5(str({'grammar_mtime': g, 'mtime': t}))` (parser.py:98-101) -/
   treeIdent : Nat → Nat → Str
-  /-- `md5(str({'mtime': g, 'grammar': …, 'start': …, 'algorithem': …}))` (parser.py:63-68); path/start/algorithm are constants of a configuration -/
-  parserIdent : Nat → Str
+  /-- `md5(str({'mtime': g, 'grammar': path, 'start': …, 'algorithem': …}))` (parser.py:63-68), arguments: grammar path,
+      start, algorithm, grammar mtime -/
+  parserIdent : Str → Str → Str → Nat → Str
   /-- `hashlib.md5(content_bytes).hexdigest()` (loader.py:49) -/
   hash : Str → Str
-  /-- `hashlib.md5(str(identities).encode()).hexdigest()` (module.py:83-84) -/
+  /-- `hashlib.md5(str(identities).encode()).hexdigest()` (module.py:94-96) -/
   identL : List Str → Str
-  /-- the pickled Lark instance for a grammar (content of `parser.cache-*.bin`) -/
-  parserBlob : Nat → Str
-  /-- source text ↦ compact JSON text of the serialised tree (EntryStored.save ∘ parse) -/
-  parse : Str → Str
+  /-- `f'{filepath}:{hash}'` (module.py:94) -/
+  entry : Str → Str → Str
+  /-- the pickled Lark instance built from (grammar path, start, algorithm, grammar file as of mtime): content of
+      `parser.cache-*.bin`, and the parser object a process works with -/
+  parserBlob : Str → Str → Str → Nat → Str
+  /-- parser, source text ↦ compact JSON text of the serialised tree (EntryStored.save ∘ parser.parse) -/
+  parse : Str → Str → Str
   /-- module keys imported by a tree, in source order (`entrypoint.imports`) -/
   importsOf : Str → List Str
-  /-- module key, tree, what the module sees of each direct import's symbol table ↦ JSON text of its own symbol table -/
+  /-- module key, tree, what the module sees of each direct import's symbol table ↦ its own symbol table -/
   analyse : Str → Str → List Str → Str
+  /-- `json.dumps(db.to_json(serializer, for_module_path), separators=(',', ':'))`: the payload of a symbol file -/
+  encTab : Str → Str
+  /-- `db.import_json(serializer, json.loads(content))`: the table restored from a payload; `none` = the decoder raises.
+      That `decTab (encTab t) = some t` is property C14 (`C14.rt`: export, then import into the table of the other modules,
+      restores every entry) composed with the JSON round trip. -/
+  decTab : Str → Option Str
   /-- the part of a symbol table a dependant looks at -/
   view : Str → Str
   /-- module key, tree, symbol tables loaded in the session (load order) ↦ transpiled text -/
@@ -85,7 +95,7 @@ def cachePath (key ident ext : Str) : Str := key ++ '-' :: (ident ++ ext)
 def symPath (key ident : Str) : Str := key ++ (symInfix ++ (ident ++ jsonExt))
 
 def treePath (S : Sem) (key : Str) (g t : Nat) : Str := cachePath key (S.treeIdent g t) jsonExt
-def parserPath (S : Sem) (g : Nat) : Str := cachePath parserKey (S.parserIdent g) binExt
+def parserPath (S : Sem) (gp st al : Str) (g : Nat) : Str := cachePath parserKey (S.parserIdent gp st al g) binExt
 
 /-- `'-'.join(cache_path.split('-')[:-1])` (cache.py:160-161) -/
 def basepathOf (p : Str) : Str := Str.join ['-'] (Str.splitOn '-' p).dropLast
@@ -127,6 +137,10 @@ def Err.toString : Err → String
 structure World where
   clock : Nat := 1
   grammarMtime : Nat := 0
+  /-- `ParserSetting`: grammar path, start rule, algorithm -/
+  grammar : Str := []
+  start : Str := []
+  algo : Str := []
   /-- module key (`module_path_to_filepath`, e.g. `app/a`) ↦ source file -/
   srcs : Dir := []
   /-- `ModulePaths` in Runner order -/
@@ -155,10 +169,12 @@ structure Sess where
   loaded : List Str := []
   /-- `Module.__identity` of the modules of this process (computed once, then cached) -/
   ids : List (Str × Str) := []
+  /-- modules whose `depends_on` was called (all their imports are loaded) -/
+  depd : List Str := []
   /-- an analysis ran while one of its imports was still being loaded (import cycle) -/
   cyc : Bool := false
   /-- CacheProvider.__instances holds the parser of this process -/
-  parserUp : Bool := false
+  parser : Option Str := none
   err : Option Err := none
   log : List Event := []
   /-- transpiled text per target of this run -/
@@ -203,62 +219,84 @@ def cacheGet (S : Sem) (s : Sess) (dir key ident ext fresh : Str) (bin : Bool) :
       (s, if s.err.isSome then none else some fresh)
 
 /-- SyntaxParserOfLark.__call__ (parser.py:38-47): parser (once per process), then the module's tree. -/
-def treeGet (S : Sem) (s : Sess) (key : Str) : Sess × Option Str :=
-  let s :=
-    if s.parserUp then s else
-      let (s, r) := cacheGet S s [] parserKey (S.parserIdent s.w.grammarMtime) binExt (S.parserBlob s.w.grammarMtime) true
-      if r.isSome then { s with parserUp := true } else s
-  if s.err.isSome then (s, none) else
-  match s.w.srcs.get? key with
-  | none => (s.fail .noSource, none)
-  | some src => cacheGet S s (dirname key) key (S.treeIdent s.w.grammarMtime src.mtime) jsonExt (S.parse src.data) false
+def World.parserNow (S : Sem) (w : World) : Str := S.parserBlob w.grammar w.start w.algo w.grammarMtime
 
-/-- `[self.__sources.hash(filepath) for filepath in depends_files]` for the direct imports; `none` = FileNotFoundError -/
-def hashes (S : Sem) (w : World) : List Str → Option (List Str)
-  | [] => some []
-  | k :: ks =>
-    match w.srcs.get? k, hashes S w ks with
-    | some f, some hs => some (S.hash f.data :: hs)
+/-- `__load_parser` (parser.py:49-71), once per process -/
+def parserGet (S : Sem) (s : Sess) : Sess × Option Str :=
+  match s.parser with
+  | some pz => (s, some pz)
+  | none =>
+    match cacheGet S s [] parserKey (S.parserIdent s.w.grammar s.w.start s.w.algo s.w.grammarMtime) binExt (s.w.parserNow S) true with
+    | (s, some pz) => ({ s with parser := some pz }, some pz)
+    | (s, none) => (s, none)
+
+def treeGet (S : Sem) (s : Sess) (key : Str) : Sess × Option Str :=
+  match parserGet S s with
+  | (s, none) => (s, none)
+  | (s, some pz) =>
+    match s.w.srcs.get? key with
+    | none => (s.fail .noSource, none)
+    | some src => cacheGet S s (dirname key) key (S.treeIdent s.w.grammarMtime src.mtime) jsonExt (S.parse pz src.data) false
+
+def pyExt : Str := ['.', 'p', 'y']
+
+/-- Python's order on `str`: lexicographic by code point -/
+def strLt : Str → Str → Bool
+  | [], [] => false
+  | [], _ :: _ => true
+  | _ :: _, [] => false
+  | a :: as, b :: bs => if a.toNat < b.toNat then true else if b.toNat < a.toNat then false else strLt as bs
+
+/-- `sorted(hashes.keys())`: insertion into a list sorted by file path (`key + '.py'`) -/
+def insertPair (x : Str × Str) : List (Str × Str) → List (Str × Str)
+  | [] => [x]
+  | y :: ys => if strLt (x.1 ++ pyExt) (y.1 ++ pyExt) then x :: y :: ys else y :: insertPair x ys
+
+def sortPairs (l : List (Str × Str)) : List (Str × Str) := l.foldl (fun acc x => insertPair x acc) []
+
+/-- the `else` branch of `__collect_hashes` (module.py:116-120): a module whose own imports are still being loaded
+    contributes the files of its direct imports only -/
+def shallow (S : Sem) (srcs : Dir) : List (Str × Str) → List Str → Option (List (Str × Str))
+  | H, [] => some H
+  | H, d :: ds =>
+    if (List.lookup d H).isSome then shallow S srcs H ds else
+    match srcs.get? d with
+    | some f => shallow S srcs (H ++ [(d, S.hash f.data)]) ds
+    | none => none                                                  -- FileNotFoundError
+
+/-- `Module.__collect_hashes` (module.py:100-120): depth-first over the loaded dependency modules with the visited dict
+    `hashes` (module key ↦ file hash, insertion order). `none` = FileNotFoundError (or the fuel of the model ran out:
+    it does not for `fuel > number of registered modules`, every descent adds a new key). -/
+def collect (S : Sem) (srcs : Dir) (trees : List (Str × Str)) (depd : List Str) : Nat → List (Str × Str) → Str → Option (List (Str × Str))
+  | 0, _, _ => none
+  | f + 1, H, k =>
+    if (List.lookup k H).isSome then some H else                    -- `if self.filepath in hashes: return`
+    match srcs.get? k, List.lookup k trees with
+    | some own, some tree =>
+      let H1 := H ++ [(k, S.hash own.data)]
+      if depd.contains k then
+        (S.importsOf tree).foldl (fun acc d =>
+          match acc with
+          | none => none
+          | some H => if (srcs.get? d).isSome then collect S srcs trees depd f H d else some H) (some H1)   -- `if module.in_storage()`
+      else shallow S srcs H1 (S.importsOf tree)
     | _, _ => none
 
-/-- `module.identity()` of an imported module (module.py:76-97): the cached value; for a module whose own imports are still
-    being loaded (`depends_on` not yet called: an import cycle) the digest over the *file hashes* of its imports, which is
-    then cached. (A module whose imports are all loaded computes its identity right away — `preprocess` follows
-    `depends_on` immediately — so an uncached imported module is always in that state.) -/
-def depIdentity (S : Sem) (s : Sess) (d : Str) : Sess × Option Str :=
-  match List.lookup d s.ids with
-  | some i => (s, some i)
+/-- Module.identity (module.py:76-97): memoised; the (file path, hash) pairs of the import closure except the own file,
+    sorted by file path, rendered as `path:hash`, then the own hash. `none` = FileNotFoundError. -/
+def identityCore (S : Sem) (srcs : Dir) (trees : List (Str × Str)) (depd : List Str) (ids : List (Str × Str)) (key : Str) :
+    List (Str × Str) × Option Str :=
+  match List.lookup key ids with
+  | some i => (ids, some i)
   | none =>
-    match List.lookup d s.trees, s.w.srcs.get? d with
-    | some tree, some own =>
-      match hashes S s.w (S.importsOf tree) with
-      | some hs => ({ s with ids := s.ids ++ [(d, S.identL (hs ++ [S.hash own.data]))] }, some (S.identL (hs ++ [S.hash own.data])))
-      | none => (s, none)
-    | _, _ => (s, none)
+    match collect S srcs trees depd (trees.length + 2) [] key, srcs.get? key with
+    | some H, some own =>
+      let i := S.identL ((sortPairs (H.filter (fun p => p.1 ≠ key))).map (fun p => S.entry (p.1 ++ pyExt) p.2) ++ [S.hash own.data])
+      (ids ++ [(key, i)], some i)
+    | _, _ => (ids, none)
 
-/-- `[module.identity() for module in self.__depends]` -/
-def depIdentities (S : Sem) : Sess → List Str → Sess × Option (List Str)
-  | s, [] => (s, some [])
-  | s, d :: ds =>
-    match depIdentity S s d with
-    | (s, none) => (s, none)
-    | (s, some i) =>
-      match depIdentities S s ds with
-      | (s, none) => (s, none)
-      | (s, some is) => (s, some (i :: is))
-
-/-- Module.identity (module.py:76-97) of a module whose imports have been loaded (`depends_on` was called): the identities
-    of the direct imports, then the hash of the own file; cached. `none` = FileNotFoundError. -/
-def identityM (S : Sem) (s : Sess) (key tree : Str) : Sess × Option Str :=
-  match List.lookup key s.ids with
-  | some i => (s, some i)
-  | none =>
-    match s.w.srcs.get? key with
-    | none => (s, none)
-    | some own =>
-      match depIdentities S s (S.importsOf tree) with
-      | (s, none) => (s, none)
-      | (s, some is) => ({ s with ids := s.ids ++ [(key, S.identL (is ++ [S.hash own.data]))] }, some (S.identL (is ++ [S.hash own.data])))
+def identityM (S : Sem) (s : Sess) (key : Str) : Sess × Option Str :=
+  ({ s with ids := (identityCore S s.w.srcs s.trees s.depd s.ids key).1 }, (identityCore S s.w.srcs s.trees s.depd s.ids key).2)
 
 /-- the persistor's part of `preprocess`, for a known identity -/
 def preprocessWith (S : Sem) (s : Sess) (key tree : Str) (views : List Str) (ident : Str) : Sess × Option Str :=
@@ -267,20 +305,22 @@ def preprocessWith (S : Sem) (s : Sess) (key tree : Str) (views : List Str) (ide
   | some f =>
     if s.w.enabled then                                               -- _can_restore: enabled ∧ in_storage ∧ exists
       let s := s.ev 'r' p
-      if S.valid f.data then (s, some f.data) else (s.fail .decodeJson, none)
+      match S.decTab f.data with                                        -- json.loads + import_json
+      | some table => (s, some table)
+      | none => (s.fail .decodeJson, none)
     else
       (s, some (S.analyse key tree views))                              -- analysed; _can_store: not enabled → no store
   | none =>
     let table := S.analyse key tree views
     if !s.w.enabled then (s, some table) else                           -- _can_store (persistent.py:126-135): enabled ∧ …
     let s := s.evict (findOldestSym s.w.cache key)
-    let s := s.write (dirname key) p table
+    let s := s.write (dirname key) p (S.encTab table)
     (s, if s.err.isSome then none else some table)
 
 /-- RestoreSymbols … StoreSymbols around the analysis (restore_symbols.py:22-46, store_symbols.py:22-35,
     persistent.py:77-173). `views` = what the analysis sees of the direct imports. Returns the module's symbol table. -/
 def preprocess (S : Sem) (s : Sess) (key tree : Str) (views : List Str) : Sess × Option Str :=
-  match identityM S s key tree with
+  match identityM S s key with
   | (s, none) => (s.fail .noSource, none)
   | (s, some ident) => preprocessWith S s key tree views ident
 
@@ -307,6 +347,7 @@ def loadMod (S : Sem) : Nat → Sess → Str → Sess
       let s := { s with loaded := s.loaded ++ [key], trees := s.trees ++ [(key, tree)] }
       let s := (S.importsOf tree).foldl (loadMod S f) s                                -- __load_dependencies
       if s.err.isSome then s else
+      let s := { s with depd := s.depd ++ [key] }                                      -- via_module.depends_on(depends)
       let imports := S.importsOf tree
       let s := if imports.all (fun d => (List.lookup d s.db).isSome) then s else { s with cyc := true }
       match preprocess S s key tree (viewsOf S s.db imports) with                      -- loader.preprocess
@@ -346,6 +387,7 @@ inductive Op
   | delete (path : Str)          -- one cache file disappears
   | trunc (path : Str) (k : Nat) -- an interrupted write: the file keeps its first k bytes (a proper prefix)
   | enable (b : Bool)
+  | grammar (path : Str)         -- the configuration names another grammar file / the grammar file is rewritten: fresh mtime
 deriving Repr
 
 def World.clearCache (w : World) : World := { w with cache := [], dirs := [] }
@@ -361,20 +403,8 @@ def step (S : Sem) (w : World) : Op → World
     | some f => { w with cache := w.cache.put p (truncFile f k) }
     | none => w
   | .enable b => { w with enabled := b }
+  | .grammar path => { w with grammar := path, grammarMtime := w.clock, clock := w.clock + 1 }
 
 def exec (S : Sem) (w : World) (h : List Op) : World := h.foldl (step S) w
-
-/-! ### the closure-keyed variant (shape of a possible repair of `Module.identity`) and the cache-free symbols -/
-
-/-- identity that digests the identities of the direct imports instead of their file hashes (a Merkle digest of the
-    import closure); `src` gives the source text of a module key -/
-def mid (S : Sem) (src : Str → Str) : Nat → Str → Str
-  | 0, _ => []
-  | f + 1, k => S.identL ((S.importsOf (S.parse (src k))).map (mid S src f) ++ [S.hash (src k)])
-
-/-- the symbol table of a module computed without any cache (recursion over the import graph, `f` levels deep) -/
-def symPure (S : Sem) (src : Str → Str) : Nat → Str → Str
-  | 0, _ => []
-  | f + 1, k => S.analyse k (S.parse (src k)) ((S.importsOf (S.parse (src k))).map (fun d => S.view (symPure S src f d)))
 
 end Tranp.CacheFS
